@@ -97,10 +97,15 @@ def oracle(case, obs, raw):
     aio_of = {}             # aio -> target
     pend = {}               # target -> pending recv aio
     tx_seen = {}            # pipe -> tx string last observed
+    vnow, tick = 0, 1000    # virtual clock of the script; NNG_OPT_REQ_RESENDTICK (default 1 s)
     for k, line in enumerate(case):
         t = line.split()
         o = obs[k]
         op = t[0]
+        if op == "advance":
+            vnow += int(t[1])
+        if op == "setopt" and o["rv"] == 0 and t[2] == "req:resend-tick":
+            tick = int(t[4])
         if op == "ctx" and o["rv"] == 0:
             resend[t[1]] = sock_resend
         elif op == "setopt" and o["rv"] == 0 and t[2] == "req:resend-time":
@@ -159,13 +164,20 @@ def oracle(case, obs, raw):
                     b = tx.split("/")[1]
                     for rec in cur.values():
                         if rec is not None and rec["body"] == b:
-                            rec["pipe"] = i; rec["rid"] = tx.split("/")[0]
+                            rec["pipe"] = i; rec["rid"] = tx.split("/")[0]; rec["t_tx"] = vnow
         if op == "inject" and o["rv"] == 0:
             # a reply carrying the request's id answers it (delivered or stashed): no longer outstanding
             for tg, rec in cur.items():
                 if rec is not None and rec.get("rid") and t[2].startswith(rec["rid"]):
                     cur[tg] = None
         ready = [i for i, p in o["pipes"].items() if p.get("st") == "o" and p.get("nt") == 0]
+        if op == "advance" and ready and tick > 0:
+            # the resend time has elapsed without a reply, a tick has passed since, a pipe is idle: the request must
+            # have been put on the wire again by now
+            for tg, rec in cur.items():
+                if rec is not None and rec["resend"] > 0 and rec.get("t_tx") is not None and vnow - rec["t_tx"] >= rec["resend"] + 2 * tick:
+                    return (k, "request %s of %s was last put on the wire at %d ms, its resend time (%d ms) and two ticks have passed (now %d ms), p%d is idle, and it was not retransmitted"
+                            % (rec["body"], tg, rec["t_tx"], rec["resend"], vnow, ready[0]))
         if ready:
             for tg, rec in cur.items():
                 if rec is None or rec["resend"] < 0:
